@@ -376,9 +376,19 @@ def _where(case):
     return s
 
 
-def _unit_checks(w, out, where, returned):
+def _unit_checks(w, out, where, returned, latch_requested=False):
     """Memory untouched, other units untouched."""
     bank = w.bank
+    if not latch_requested:
+        # a read that was not asked to latch has no business writing to the unit: the lock byte (which may hold the
+        # caller's own latch 0xAA or an unlocked 0x55) must be exactly what it was and no write may be attempted
+        if w.spec["has_lock_byte"] and bank.contents[2] != w.image[2]:
+            out.append(("C09:read-without-latch-changed-lock-byte", "%s: lock byte went from 0x%02x to 0x%02x although no latch "
+                        "was requested" % (where, w.image[2] if w.image[2] is not None else -1,
+                                           bank.contents[2] if bank.contents[2] is not None else -1)))
+        elif [e for e in w.target.mem_write_log if e[0] == w.spec["bank"]]:
+            out.append(("C09:read-without-latch-wrote-to-unit", "%s: write(s) %r were sent to the bank although no latch was "
+                        "requested" % (where, [tuple(e)[:3] for e in w.target.mem_write_log][:4])))
     k = bank.drift_calls
     exp = list(w.image)
     if k:
@@ -592,7 +602,7 @@ def case_bank(case):
                                     % (where, k, got[k], "in the latched snapshot " if src is not w.image else "",
                                        hexs(expected[k]), RM.decode(r, expected[k]))))
                         break
-    _unit_checks(w, out, where, outcome == "returned")
+    _unit_checks(w, out, where, outcome == "returned", latch_requested=bool(use_latch and spec["has_latch"]))
     LAST_OUTCOME[0] = "outcome:bank:" + (outcome if outcome != "returned" else
                                          "returned-%s" % ("nothing" if not val else "all" if len(expected) == len(spec["values"])
                                                           else "some"))
@@ -645,7 +655,7 @@ def is_nontrivial(case):
 
 # -------------------------------------------------------------------------- shards ----
 ADDRS = ("gear", "device", "int")
-LOCKS = (0xFF, 0x55, 0x00)
+LOCKS = (0xFF, 0x55, 0x00, 0xAA)
 IMAGES = ("ff", "00", "ramp", "default")
 
 
@@ -730,7 +740,7 @@ def _shard_banks(arg):
     for last in lasts:
         for li, use_latch in enumerate(latches):
             addr = ADDRS[(last + li + seed) % 3]
-            run(_bank_case(bankobj, addr, short, image, last, lock=LOCKS[(last + li) % 3], use_latch=use_latch,
+            run(_bank_case(bankobj, addr, short, image, last, lock=LOCKS[(last + li) % len(LOCKS)], use_latch=use_latch,
                            drift=use_latch), "bank:last-sweep")
     if part == 0:
         top = spec["last"]
